@@ -136,9 +136,9 @@ def check(run):
             docgen.dump(docgen.document(rng.getrandbits(32), nblocks=rng.randint(4, 9), with_noasm=(k % 2 == 0), max_len=16,
                                         multi_data=(k % 2 == 0), twin=(k % 3 == 1), failing=(k % 3 == 2)), p)
             inputs.append(p)
-        optsets = [["-greedy"], ["-greedy", "-size", "-push0"]] if quick else [["-greedy"], ["-greedy", "-size"], ["-greedy", "-storage"],
-                                                                                 ["-greedy", "-partition", "-length"], ["-greedy", "-push0"],
-                                                                                 ["-ub-greedy", "-solver", "z3"]]
+        optsets = [["-greedy"], ["-greedy", "-size", "-push0"], ["-ub-greedy", "-solver", "z3", "--prefer-greedy"]] if quick else \
+            [["-greedy"], ["-greedy", "-size"], ["-greedy", "-storage"], ["-greedy", "-partition", "-length"], ["-greedy", "-push0"],
+             ["-ub-greedy", "-solver", "z3"], ["-ub-greedy", "-solver", "z3", "--prefer-greedy"]]
         ntamper = 6 if quick else 14
         evaluations, nontrivial = 0, 0
         pending_pairs, pending_meta = [], []
@@ -157,7 +157,10 @@ def check(run):
                     return
                 d = os.path.join(work, "%s_o%d" % (base, oi))
                 os.makedirs(d)
+                # "--prefer-greedy" is a scenario of harness/run_tool.py for the optimization run only
+                ropts = [o for o in opts if o != "--prefer-greedy"]
                 rc, out = run_tool([path] + opts + ["-log"], d)
+                opts = ropts
                 evaluations += 1
                 if rc != 0:
                     with lock:
